@@ -582,7 +582,7 @@ Proof.
     discriminate.
   - (* Remove *)
     pose proof (classify_spec K d s name (inv_names _ _ I) R Hnf) as CS. cbn zeta in CS.
-    unfold remove in Hstep.
+    unfold remove, remove_g in Hstep.
     destruct (classify s name) as [| | | |p]; inversion Hspec; subst; clear Hspec.
     + rewrite CS in Hstep. destruct (Nat.eqb_spec (nf d) 0); [lia|]. rewrite Nat.eqb_refl in Hstep.
       inversion Hstep; subst. done4.
